@@ -461,14 +461,22 @@ func c14Judge(b *c14Built, q c14Query, o c14Out) c14Verdict {
 				if a.Err {
 					exp = append(exp, "error (no selectable subnet)")
 				} else {
-					exp = append(exp, fmt.Sprintf("%s (group %d, subnet #%d, id %v, offset %v)", c14FmtIP(a.IP), a.Group, a.Net, a.ID, a.Off))
+					g := fmt.Sprintf("group %d", a.Group)
+					if a.Group < 0 {
+						g = "unweighted"
+					}
+					exp = append(exp, fmt.Sprintf("%s (%s, subnet #%d of the filtered list, id %v, offset %v)", c14FmtIP(a.IP), g, a.Net, a.ID, a.Off))
 				}
 			}
 			v.Key, v.Msg = "ref-mismatch:address", fmt.Sprintf("selected %s; the published HKDF selection gives %s", c14FmtIP(o.IP), strings.Join(exp, " or "))
 			return v
 		}
 		if o.Rand && !sameIP.Rand {
-			v.Key, v.Msg = "randport-not-allowed:chosen-group", fmt.Sprintf("SupportRandomPort()=true for %s but the group it was selected from (group %d) does not allow it", c14FmtIP(o.IP), sameIP.Group)
+			from := fmt.Sprintf("group %d", sameIP.Group)
+			if sameIP.Group < 0 {
+				from = fmt.Sprintf("the group of subnet #%d of the unweighted, filtered list", sameIP.Net)
+			}
+			v.Key, v.Msg = "randport-not-allowed:chosen-group", fmt.Sprintf("SupportRandomPort()=true for %s but the group it was selected from (%s) does not allow it", c14FmtIP(o.IP), from)
 			return v
 		}
 		if !o.Rand && sameIP.Rand {
